@@ -19,4 +19,12 @@ for f in sorted(os.listdir(pkg)):
         tree = ast.parse(open(os.path.join(pkg, f)).read())
         out[f[:-3]] = sorted({x[0] for x in def_paths(tree)})
 json.dump(out, open(os.path.join(VERIF, "afkverif", "reference_functions.json"), "w"), indent=0, sort_keys=True)
+# number of parameters (self/cls not counted) of every nested function: a closure lifted out by a refactoring has at least
+# as many (the captured variables become parameters)
+arity = {}
+for f in sorted(os.listdir(pkg)):
+    if f.endswith(".py"):
+        tree = ast.parse(open(os.path.join(pkg, f)).read())
+        arity[f[:-3]] = {q: len([a for a in n.args.args if a.arg not in ("self", "cls")]) for q, n, owner, kind in def_paths(tree) if kind == "func"}
+json.dump(arity, open(os.path.join(VERIF, "afkverif", "reference_arity.json"), "w"), indent=0, sort_keys=True)
 print("reference: %d units, %d functions" % (len(out), sum(len(v) for v in out.values())))
